@@ -509,6 +509,7 @@ func checkCodec(c *core.Check, which string) {
 	noV := map[string]any{"t": "leaf", "s": "-"}
 	info := map[string]any{}
 	nEnc, nDec := 0, 0
+	distinctEnc, distinctDec := map[string]bool{}, map[string]bool{} // distinct (type, bytes) whose document is an object or array
 	for _, tn := range typeOrder {
 		add(map[string]any{"ev": "Schema", "id": tn, "s": typeSchema[tn]})
 		parsedCase := map[string]bool{}
@@ -557,11 +558,17 @@ func checkCodec(c *core.Check, which string) {
 				if encOK {
 					j = core.ParseJ(out)
 				}
+				if t, _ := j["t"].(string); t == "obj" || t == "arr" {
+					distinctEnc[tn+"|"+string(out)] = true
+				}
 				valid, _ := e["valid"].(bool)
 				add(map[string]any{"ev": "Enc", "case": cid, "type": tn, "v": proj("v"), "encOK": encOK, "valid": valid, "j": j, "decOK": decOK, "v2": proj("v2"), "panic": trunc(pan, 200)})
 				info[cid] = map[string]any{"type": tn, "schema": m.sch, "value": e["v"], "bytes": string(out), "encErr": e["encErr"], "decErr": e["decErr"], "decoded": e["v2"], "panic": trunc(pan, 600)}
 			} else {
 				nDec++
+				if len(m.doc) > 0 && (m.doc[0] == '{' || m.doc[0] == '[') {
+					distinctDec[tn+"|"+m.mut+"|"+string(m.doc)] = true
+				}
 				re := invalidJ
 				if encOK {
 					re = core.ParseJ(out)
@@ -614,11 +621,12 @@ func checkCodec(c *core.Check, which string) {
 	if which == "c08" {
 		c.Add("traces_validated_against_impl", int64(nDec))
 		c.Add("evaluations", int64(nDec))
+		c.Add("distinct_nontrivial", int64(len(distinctDec)))
 	} else {
 		c.Add("traces_validated_against_impl", int64(nEnc))
 		c.Add("evaluations", int64(nEnc))
+		c.Add("distinct_nontrivial", int64(len(distinctEnc)))
 	}
-	c.Add("distinct_nontrivial", int64(jr.Nontriv))
 	c.Cov["rejected_for_other_codec_properties"] = other
 	c.Cov["rejected_by_finding"] = kfCount
 	c.Cov["exhaustive"] = false
